@@ -53,7 +53,7 @@ Lemma scoped_weaken ids ids' ev :
   scoped ids ev = true -> scoped ids' ev = true.
 Proof.
   intros H. unfold scoped. rewrite !forallb_forall. intros A e He. specialize (A e He).
-  destruct e as [h k r| | | |]; cbn in *; auto. destruct h; auto.
+  destruct e as [h k r| | | | |]; cbn in *; auto. destruct h; auto.
 Qed.
 
 Lemma scoped_l a b ev : scoped a ev = true -> scoped (a ++ b) ev = true.
@@ -76,7 +76,7 @@ Lemma run_hook_scoped cfg st h k st' r ev ids :
 Proof.
   unfold run_hook. destruct (c_dry cfg || negb (c_hooks cfg h)).
   - intros E; inversion E; subst. reflexivity.
-  - destruct (c_faults cfg h k); intros E Hk; inversion E; subst; cbn;
+  - destruct (c_faults cfg h k), (c_aborts cfg h k); intros E Hk; inversion E; subst; cbn;
       destruct h; cbn in *; auto; rewrite Hk; auto.
 Qed.
 
